@@ -336,7 +336,7 @@ func TestVerif_C10(t *testing.T) {
 		keys = append(keys, []byte{0x10}, []byte{0x01, 0x01})
 	}
 	values := [][]byte{{}, {0x01}, c10Fill(32, 0xa2), c10Fill(33, 0xa3)}
-	maxLen := verifmc.Pick(3, 4)
+	maxLen := 3
 	var alphabet []ref.KV
 	for _, k := range keys {
 		for _, v := range values {
@@ -351,6 +351,7 @@ func TestVerif_C10(t *testing.T) {
 		}
 		verifmc.Product(dims, func(idx []int) { lists = append(lists, append([]int{}, idx...)) })
 	}
+	extra := ""
 
 	// --- alphabet of part B (ordered root of value lists)
 	type ordCase struct {
@@ -398,7 +399,7 @@ func TestVerif_C10(t *testing.T) {
 	}
 	const edgeTrunc = 64 // quick tier, lists above 300 values: prefixes of length < 64 and > len-64
 
-	r.Rule = fmt.Sprintf("part A: every ordered list (with repetition) of length 0..%d over %d keys %v x 4 values {\"\", 01, 32 bytes, 33 bytes} "+
+	r.Rule = fmt.Sprintf("part A: every ordered list (with repetition) of length 0..%d over %d keys %v x 4 values {\"\", 01, 32 bytes, 33 bytes}%s "+
 		"(%d lists) is SCALE-encoded by the harness and passed to root_version_1 and to root_version_2 with every version 0..255; "+
 		"every proper prefix of every encoding is passed to root_version_1 and root_version_2 (versions 0, 1). "+
 		"part B: every value list of length 0..%d over the 4 values, and lists of length %v under 5 value patterns (all empty, all 01, u32le(i), "+
@@ -406,7 +407,7 @@ func TestVerif_C10(t *testing.T) {
 		"every proper prefix of the encodings (lists above 300 values in the quick tier: the prefixes shorter than %d bytes and the last %d) is passed with versions 0, 1. "+
 		"Expected: reference root (later duplicate wins; ordered: key = compact(i)) read back from guest memory for versions 0/1, pointer 0 otherwise and for prefixes. "+
 		"A case is non-trivial when the list has at least two entries. Versions above 255 (%v) are executed but not judged.",
-		maxLen, len(keys), c10HexList(keys), len(lists), smallMax, sizes, edgeTrunc, edgeTrunc, c10UnjudgedVersions)
+		maxLen, len(keys), c10HexList(keys), extra, len(lists), smallMax, sizes, edgeTrunc, edgeTrunc, c10UnjudgedVersions)
 	r.Assumption("the reference trie root (engine/ref/reftrie.go) and the harness' SCALE writer are trusted")
 	r.Assumption("failure is observed as result pointer 0 (the allocator never hands out address 0: heap base 1024)")
 	r.Assumption("every proper prefix of a valid encoding of Vec<(Vec<u8>,Vec<u8>)> / Vec<Vec<u8>> is undecodable (the element count and lengths already read demand more bytes)")
